@@ -58,6 +58,12 @@ func ImportTwin(w *worlds.World, h History, menu []int, st *ImportStats) []Viola
 	}
 	st.States++
 	n := base.Node
+	// (0) the export is complete with respect to the state's own accessors: nonce, lock and
+	// every balance of every account the world knows (an account that the export drops is
+	// missing on both sides of the round trip, so the re-export comparison cannot see it)
+	for _, v := range exportVsAccessors(w, n, &base.Final().Export) {
+		mk(v[0], fmt.Sprintf("export at height %d: %s", n.Height, v[1]), h)
+	}
 	var gen *worlds.World
 	var genErr error
 	flt := lab.Guard("Export", func() {
